@@ -4,6 +4,7 @@ import copy
 import copyreg
 import functools
 import inspect
+import threading
 from threading import RLock
 from types import ModuleType
 from typing import Any, Callable, Dict, Optional, Set, Type, Union
@@ -201,6 +202,9 @@ def mutate_attr(
     return obj
 
 
+_INVALIDATION_PASSES = threading.local()
+
+
 def invalidate_attrs(
     obj: Any,
     attr: str,
@@ -212,22 +216,33 @@ def invalidate_attrs(
     if not invalidation_map:
         return
 
-    seen = {attr} if _seen is None else _seen
+    # Deleting an invalidatee invalidates *its* dependants in turn (through
+    # `__delattr__`); all of that is one invalidation pass over `obj`, which
+    # must not come back to what started it (e.g. an override just assigned
+    # to one of two properties that are both invalidated by "*").
+    active = _INVALIDATION_PASSES.__dict__.setdefault("seen", {})
+    outermost = id(obj) not in active
+    seen = active.setdefault(id(obj), set()) if _seen is None else _seen
+    seen.add(attr)
 
     # Handle invalidation
-    for invalidatee in invalidation_map.get(attr, set()) | invalidation_map.get(
-        "*", set()
-    ):
-        if invalidatee in seen:
-            continue
-        seen.add(invalidatee)
-        try:
-            delattr(obj, invalidatee)
-        except AttributeError:
-            # Nothing is stored for `invalidatee` itself (e.g. a property that
-            # does not cache), but values derived from it may be: deleting
-            # would have invalidated them, so carry on down the chain.
-            invalidate_attrs(obj, invalidatee, invalidation_map, seen)
+    try:
+        for invalidatee in invalidation_map.get(attr, set()) | invalidation_map.get(
+            "*", set()
+        ):
+            if invalidatee in seen:
+                continue
+            seen.add(invalidatee)
+            try:
+                delattr(obj, invalidatee)
+            except AttributeError:
+                # Nothing is stored for `invalidatee` itself (e.g. a property that
+                # does not cache), but values derived from it may be: deleting
+                # would have invalidated them, so carry on down the chain.
+                invalidate_attrs(obj, invalidatee, invalidation_map, seen)
+    finally:
+        if outermost:
+            del active[id(obj)]
 
 
 def mutate_value(
